@@ -316,6 +316,8 @@ pub mod jurav1_server {
         pub has_next: bool,
         pub executed_trades: Vec<Fill>,
         pub inserted_orders: Vec<Order>,
+        //Ids of the orders created on this tick by triggered orders
+        pub triggered_order_ids: Vec<OrderId>,
     }
 
     #[get("/backtest/{backtest_id}/tick")]
@@ -331,6 +333,7 @@ pub mod jurav1_server {
                 inserted_orders: result.2,
                 executed_trades: result.1,
                 has_next: result.0,
+                triggered_order_ids: result.3,
             }))
         } else {
             Err(JuraV1Error::UnknownBacktest)
